@@ -14,6 +14,9 @@ import (
 // build a Create (or a bare Note when bare) with nobj embedded Notes and an address pattern
 func vfC05Build(o *vfOutbox, bare bool, nobj int) {
 	pat := vfAddrPatterns[vfChoose("pattern", vfParam("patterns", len(vfAddrPatterns)))]
+	if o.cross {
+		pat = [][2]int{{0, 1 | 4 | 16}, {2, 1 | 2 | 4 | 8}, {0, 31}}[vfChoose("cross.pattern", vfParam("crosspats", 3))]
+	}
 	if bare {
 		o.tree = vfDoc("Note", "content", "hello")
 		if vfChoose("id-and-published", 2) == 1 {
@@ -215,14 +218,18 @@ func (w *vfWorld) senderInbox() *url.URL {
 
 // ---------------------------------------------------------------------
 
-func vfC05Create(bare bool, check int) {
-	o := &vfOutbox{w: vfOutboxWorld(), social: true}
+func vfC05Create(bare bool, check int) { vfC05CreateX(bare, check, false) }
+
+func vfC05CreateX(bare bool, check int, cross bool) {
+	o := &vfOutbox{w: vfOutboxWorld(), social: true, cross: cross}
 	o.fed = vfChoose("federating", 2) == 1
-	o.w.faults = vfParam("faults", 0) > 0
 	nobj := 1 + vfChoose("nobj", vfParam("nobj", 2))
 	if bare {
 		nobj = 1
 	}
+	// faults_wide = 0: injected faults only on the single-object posts (the fault positions of a
+	// second object repeat those of the first); 1: on every post
+	o.w.faults = vfParam("faults", 0) > 0 && (nobj == 1 || vfParam("faults_wide", 0) > 0) && !cross
 	vfC05Build(o, bare, nobj)
 	o.distinctIDs()
 	o.run()
@@ -314,6 +321,9 @@ func vfC05Create(bare bool, check int) {
 }
 
 func VfC05_Create()     { vfC05Create(false, 5) }
+
+// the same recipient may appear under several addressing properties of the objects
+func VfC05_CreateCross() { vfC05CreateX(false, 5, true) }
 func VfC05_BareObject() { vfC05Create(true, 5) }
 func VfC03_Create()     { vfC05Create(false, 3) }
 func VfC03_BareObject() { vfC05Create(true, 3) }
